@@ -57,8 +57,8 @@ CLAIMS = {
    text="20 URL syntax classes x 5 (quick) / 200 (thorough) concrete instances, incl. opaque URLs, userinfo, IPv6, parse errors and random bytes, are posted to the open endpoint of the real shim; every address gorilla's DefaultDialer is asked to connect to is recorded and must be the configured backend; on success the backend must have seen exactly the supplied path and query; requests outside the shim prefix must reach the wrapped handler untouched.",
    note="Trusted: TLC, the recording NetDialContext (refuses foreign addresses, so a foreign dial is observed without traffic). URL classes are finite.",
    design="6 C13"),
- "C14": dict(engine="Inject", technique="TLA+ spec Inject (decision model of banner/shim-script injection over abstract request/response classes, lemmas checked by TLC) + class domains exported by TLC, concretised and run through the real banner.Proxy + websockets.Proxy + ReverseProxy(ShimBody) chain + TLC trace validation (InjectTrace, operator InjectOK)",
-   text="Each-class sweep plus seeded random combinations (511 quick / 4000+ thorough of a 3.5 M class product) over method, Accept, Sec-Fetch headers, Referer, status, Content-Type, Content-Disposition, body shape (position/number/case of <head>, relative to the 1024-byte first read), backend write segmentation and banner/shim switches; the harness classifies what came out (same / script inserted once after the first <head> / banner frame / other, end-to-end headers unchanged, frame embeds URL + no-store + sameorigin) and the TLA+ operator InjectOK decides whether that alteration is allowed for the case.",
+ "C14": dict(engine="Inject", technique="TLA+ spec Inject (decision model of banner/shim-script injection over abstract request/response classes, lemmas checked by TLC) + class domains and the strata of the decision predicates exported by TLC (one representative per element of the product of strata), concretised and run through the real banner.Proxy + websockets.Proxy + ReverseProxy(ShimBody) chain + TLC trace validation (InjectTrace, operator InjectOK)",
+   text="One case per element of the product of the decision predicates' strata (method GET/other x Accept html/other x status 200/other x Content-Type HTML/not/unjudged x attachment/other x Content-Encoding none/gzip x four ways of being already framed x banner x shim, ~2000 quick / 3072 thorough), an each-class sweep and seeded random combinations (450 quick / 4000 thorough of a 7 M class product) over method, Accept, Sec-Fetch headers, Referer, status, Content-Type, Content-Disposition, body shape (position/number/case of <head>, relative to the 1024-byte first read), backend write segmentation and banner/shim switches; the harness classifies what came out (same / script inserted once after the first <head> / banner frame / other, end-to-end headers unchanged, frame embeds URL + no-store + sameorigin) and the TLA+ operator InjectOK decides whether that alteration is allowed for the case.",
    note="Trusted: TLC, the harness' classification of the observed body (byte comparison against the original and against the original with ShimBody's own script spliced in). Content-Types that merely mention html are not judged.",
    design="6 C14"),
  "C15": dict(engine="TcpBridge", technique="TLA+ spec TcpBridge (per-direction message queue, bufferedMsg reassembly, Integrity prefix invariant) checked by TLC + class combinations exported by TLC run through the real tcp-bridge-frontend / tcp-bridge-backend binaries with harness TCP peers + TLC-checked refinement TcpBridge => TcpBridgeObs + TLC trace validation against TcpBridgeObs (TcpBridgeTrace)",
@@ -69,8 +69,8 @@ CLAIMS = {
    text="TLC proves ClosePropagates (a close reaches the other peer after all data sent before it) for the current design (in-band CloseWrite marker, half-close, release when both copy loops have ended) and refutes it for the code before the fix (Marker=FALSE); TLC also checks that the bridge model refines the observable spec TcpBridgeObs against which the recorded runs are validated; on the real binaries who closes first x data in flight in either direction x segmentations are executed, the first closer half-closes gracefully, and the trace spec requires the other peer to observe end-of-stream (within 10 s) only after having received everything the closing peer had sent, and the TCP server to hold no bridged connection afterwards.",
    note="Trusted: TLC, harness peers. Data still travelling towards a peer that has itself closed is not covered by the property and not judged. 'Bounded time' = 10 s.",
    design="6 C16"),
- "C17": dict(engine="AppProxy", technique="TLA+ spec AppProxy (reference semantics AgentCallOK / AdminCallOK / UserRoutingOK) + all access-control combinations enumerated by TLC run against the real app binary (3 services as processes) with a fake App Engine API + TLC trace validation (AppProxyTrace)",
-   text="All 240 combinations of agent endpoint x caller identity x backend named x request ID kind, plus 18 admin-API calls by 6 kinds of caller, are executed against the real app; for each call the harness records status, whether the reply reveals request bytes or IDs, whether the store changed and which datastore kinds were touched, and the TLA+ operators decide: exactly the registered backend user gets 200 (404 for foreign/unknown IDs, 400 for a missing ID), everybody else 401 with nothing learnt and nothing changed; only administrators get past 403.",
+ "C17": dict(engine="AppProxy", technique="TLA+ specs AppProxy (reference semantics AgentCallOK / AdminCallOK / UserRoutingOK) and AppAuth (registrations changing over time, deviation StaleGrants refuted by TLC) + all access-control combinations and all registration histories up to a bound enumerated by TLC run against the real app binary (3 services as processes) with a fake App Engine API + TLC trace validation (AppProxyTrace)",
+   text="All 240 combinations of agent endpoint x caller identity x backend named x request ID kind, plus 18 admin-API calls by 6 kinds of caller, plus every history of register / re-register / delete / call steps up to length 4 (thorough 5) enumerated by TLC from AppAuth.tla (each call judged against the registration in force at that moment), are executed against the real app; for each call the harness records status, whether the reply reveals request bytes or IDs, whether the store changed and which datastore kinds were touched, and the TLA+ operators decide: exactly the registered backend user gets 200 (404 for foreign/unknown IDs, 400 for a missing ID), everybody else 401 with nothing learnt and nothing changed; only administrators get past 403.",
    note="Trusted: TLC, the fake App Engine API (datastore/memcache/user over the rpc_http protocol), identities injected through ticket / X-AppEngine-User headers. /cron/delete is protected by app.yaml, not by code, and is not judged.",
    design="6 C17"),
  "C18": dict(engine="AppProxy", technique="TLA+ spec AppProxy (RouteAnswers: longest matching prefix among the user's backends, shared fallback, liveness) as reference + random backend sets over TLC-exported domains registered in the real app + TLC trace validation (AppProxyTrace)",
